@@ -441,13 +441,15 @@ def _build_leak():
     f = d.add(_font("FontA", {"Type": N("Encoding"), "BaseEncoding": N("WinAnsiEncoding"), "Differences": [65, N("sigma")]}))
     fm = d.add(Stream({"Type": N("XObject"), "Subtype": N("Form"), "BBox": [0, 0, 100, 50], "Resources": {"Font": {"F1": f}}},
                       _text("F1", 9, 5, 5, b"FORM")))
-    use = b"BT /F1 10 Tf Td 72 600 Td /CS0 cs 0 1 0 sc (ABC) Tj ET\nq 1 0 0 1 200 300 cm /Fm0 Do Q\n"
-    s1 = d.add(Stream({}, b"BT /F1 10 Tf 72 600 Td /CS0 cs 0 1 0 sc (ABC) Tj ET\nq 1 0 0 1 200 300 cm /Fm0 Do Q\n30 40\n"))
+    # pages 2 and 3 paint a path of their own; page 1 (which is also rotated) ends with a path that is constructed but never
+    # painted, and with two unconsumed operands: neither the path, nor the operands, nor the rotation may reach the next page
+    use = b"BT /F1 10 Tf Td 72 600 Td /CS0 cs 0 1 0 sc (ABC) Tj ET\nq 1 0 0 1 200 300 cm /Fm0 Do Q\n100 100 m 150 100 l S\n"
+    s1 = d.add(Stream({}, b"BT /F1 10 Tf 72 600 Td /CS0 cs 0 1 0 sc (ABC) Tj ET\nq 1 0 0 1 200 300 cm /Fm0 Do Q\n10 10 m 50 50 l 60 20 l\n30 40\n"))
     s2 = d.add(Stream({}, use))
     s3 = d.add(Stream({}, use + b"50 60 70\n"))
     d.set(cat, {"Type": N("Catalog"), "Pages": pages})
     d.set(pages, {"Type": N("Pages"), "Kids": [p1, p2, p3], "Count": 3, "MediaBox": [0, 0, 612, 792]})
-    d.set(p1, {"Type": N("Page"), "Parent": pages, "Contents": s1,
+    d.set(p1, {"Type": N("Page"), "Parent": pages, "Contents": s1, "Rotate": 90,
                "Resources": {"Font": {"F1": f}, "XObject": {"Fm0": fm}, "ColorSpace": {"CS0": N("DeviceRGB")}}})
     d.set(p2, {"Type": N("Page"), "Parent": pages, "Resources": {}, "Contents": s2})
     d.set(p3, {"Type": N("Page"), "Parent": pages, "Contents": s3})
